@@ -458,6 +458,17 @@ def install(reg):
     for nm in ("exp", "log", "log10", "sqrt", "sin", "cos"):
         _ew1(nm, nm)
 
+    @fn("numpy.reciprocal")
+    def np_reciprocal(itp, a, k):
+        # mode R: 1 / x (numpy's INTEGER reciprocal truncates - integer dtypes are not modelled, see DESIGN I.2)
+        v = to_array_if_seq(itp, a[0])
+        cx = itp.cx
+
+        def rec(x):
+            cx.require(f"safe.div#{cx.ordinal('safe.div')}", T.ne(x, 0), "safe", "divisor non-zero")
+            return T.div(1, x)
+        return A.ewise(cx, rec, [v], "real")
+
     @fn("numpy.isclose")
     def np_isclose(itp, a, k):
         rtol = term_of(k.get("rtol", a[2] if len(a) > 2 else T.from_float(1e-05)))
